@@ -20,7 +20,7 @@ ASSUMPTIONS = [
     'handler tables are read through the internal names _handlers/_globals/_tasks (inconclusive if they disappear)',
     'a generator handler that yields None right after catching TimeoutError is not generated',
 ]
-REQUIRED = ['awaited_event_fired_to_two_channels', 'awaited_by_name_while_fired_to_two_channels', 'several_handlers_waiting_for_one_event_instance', 'callee_on_explicit_channel', 'callee_with_success_channels', 'falsy_value_after_call', 'call_by_object', 'wait_by_object', 'wait_by_name', 'nested_call', 'sequential_calls', 'callee_raises_plain',
+REQUIRED = ['namesake_of_an_event_awaited_by_name_called_meanwhile', 'awaited_event_fired_to_two_channels', 'awaited_by_name_while_fired_to_two_channels', 'several_handlers_waiting_for_one_event_instance', 'callee_on_explicit_channel', 'callee_with_success_channels', 'falsy_value_after_call', 'call_by_object', 'wait_by_object', 'wait_by_name', 'nested_call', 'sequential_calls', 'callee_raises_plain',
             'callee_generator_raises_first_step', 'callee_generator_raises_after_yield', 'callee_multi_handler', 'timeout_expired',
             'timeout_not_expired', 'timeout_zero', 'roots_in_flight_2plus', 'same_event_type_called_concurrently']
 REQUIRED_OBLIGATIONS = ['RESUME_ONCE', 'RESULT', 'AFTER_CALLEE', 'TIMEOUT_NOT_EARLY', 'CALLER_FEEDBACK', 'CALLER_VALUE', 'RESIDUE']
@@ -154,6 +154,9 @@ def evaluate(case, w, norm, before, after, comps):
         marks.add('callee_on_explicit_channel')
     if any(a[0] in ('call', 'wait', 'waitname') and len(a[1].get('channels', ())) >= 2 for h in case['handlers'] for a in h['body']):
         marks.add('awaited_event_fired_to_two_channels')
+    wn = {a[1]['name'] for h in case['handlers'] for a in h['body'] if a[0] == 'waitname'}
+    if any(a[0] == 'call' and a[1]['name'] in wn for h in case['handlers'] for a in h['body']):
+        marks.add('namesake_of_an_event_awaited_by_name_called_meanwhile')
     if any(a[0] == 'waitname' and len(a[1].get('channels', ())) >= 2 for h in case['handlers'] for a in h['body']):
         marks.add('awaited_by_name_while_fired_to_two_channels')
     if any(a[0] in ('call', 'wait', 'waitname') and a[1].get('success_channels') for h in case['handlers'] for a in h['body']):
@@ -253,6 +256,14 @@ def corpus():
             dict(HD(2, 'foo', [['ret', 'A']]), channel='a'), dict(HD(3, 'foo', [['yield', 'B1'], ['ret', 'B2']], gen=True), channel='b'),
             dict(HD(4, 'bar', [['ret', 'C']], prio=1), channel='b'), dict(HD(5, 'bar', [['raise']]), channel='a')],
             'fires': [E('a', flags=SF), E('a', flags=SF)] if kind != 'waitname' else [E('a', flags=SF)]})
+    # a wait by name has latched onto one event of that name; another event of the same name, called by somebody else a little later,
+    # finishes EARLIER (its handler is busy for fewer steps): the waiter is resumed by its own event only
+    for long_, short, delay in ((6, 0, 2), (5, 1, 3), (8, 2, 2)):
+        cs.append({'name': 'by-name-and-a-shorter-namesake-%d-%d' % (long_, short), 'handlers': [
+            HD(1, 'wn', [['waitname', E('job', steps=long_)], ['yield', 'after'], ['ret', 'w']], gen=True),
+            HD(2, 'cl', [['yield', None]] * delay + [['call', E('job', steps=short)], ['ret', 'c']], gen=True),
+            HD(3, 'job', [['yield', 'j1'], ['yieldsteps'], ['ret', 'j2']], gen=True)],
+            'fires': [E('wn', flags=SF), E('cl', flags=SF)]})
     # events whose name is not the name of their class (the done notification is named after the event)
     for mk in ('attr', 'renamed'):
         cs.append(dict(cs[0], name='basic-' + mk, mk=mk))
@@ -397,6 +408,13 @@ def gen_case(rng):
     # names waited by name must not be fired by anybody else while the wait is open: drop plain fires/calls of them
     for h in handlers:
         h['body'] = [a for a in h['body'] if not (a[0] in ('fire', 'call', 'wait') and a[1]['name'] in seen)]
+    if rng.random() < 0.15:
+        # a by-name waiter and, a little later, somebody else's call of a namesake that finishes earlier
+        long_, short, delay = rng.randint(3, 8), rng.randint(0, 2), rng.randint(2, 3)
+        handlers.append(HD(hid + 1, 'wnx', [['waitname', {'name': 'jobx', 'steps': long_}], ['ret', 'w']], gen=True))
+        handlers.append(HD(hid + 2, 'clx', [['yield', None]] * delay + [['call', {'name': 'jobx', 'steps': short}], ['ret', 'c']], gen=True))
+        handlers.append(HD(hid + 3, 'jobx', [['yield', 'j1'], ['yieldsteps'], ['ret', 'j2']], gen=True))
+        fires += [{'name': 'wnx', 'flags': {'success': True}}, {'name': 'clx', 'flags': {'complete': True}}]
     case = {'handlers': handlers, 'fires': fires}
     if rng.random() < 0.2:
         case['mk'] = rng.choice(['attr', 'renamed'])   # events whose name is not their class name
